@@ -18,10 +18,11 @@ use vcore::util::{catch, fnv_str, mix};
 use vcore::{Cfg, Check, Cx, Finding, Meta, SUB_SETUP, Tier, Value, Violation, json};
 
 mod genr;
-mod probe;
-mod tab1;
-mod tab2;
-mod ty;
+
+use c04p::{probe, ty};
+use c04t1 as tab1;
+use c04t2 as tab2;
+use c04t3 as tab3;
 
 use genr::{Expect, Pkg, Sigd, Target};
 use probe::{Got, Probe, Table};
@@ -34,13 +35,13 @@ fn table(tier: Tier) -> Table {
     tab1::leaves(&mut v);
     tab1::options(&mut v);
     tab1::lists(&mut v);
-    tab1::results(&mut v);
-    tab1::verdicts(&mut v);
-    tab1::aliens(&mut v);
-    tab1::arity(&mut v);
-    tab1::mixed(&mut v);
+    tab2::results(&mut v);
+    tab2::verdicts(&mut v);
+    tab2::aliens(&mut v);
+    tab2::arity(&mut v);
+    tab2::mixed(&mut v);
     if tier == Tier::Thorough {
-        tab2::all(&mut v);
+        tab3::all(&mut v);
     }
     // the arity signatures fn(), fn(u8), fn(u32) are also fn(R) / fn() -> R probes
     let mut seen = std::collections::HashSet::new();
@@ -386,11 +387,14 @@ impl Check for C04 {
         let pg = ty::probe_grammar(cfg.tier);
         let p = genr::package(cfg.tier);
         Meta {
-            rule: "every target (name + generator-known signature or 'nothing') x every Rust function type of the probe table, requested through Package::get_function; Ok iff descriptors are structurally equal; diagonal handles are called once. A pair is non-trivial when the name designates a script function and the requested type has the same number of parameters (so that at least one type comparison decides the outcome)".into(),
+            rule: "every target (a name + the signature the generator knows it has, or 'nothing') x every Rust function type of the probe table, requested through Package::get_function; Ok iff parameter lists and return types are structurally equal descriptors; never a panic; handles obtained on the depth<=1 diagonal are called once. Script side: p_S/r_S for every S of the script grammar (quick: 132 G1 types + all 456 depth-2 nestings over the 6-leaf set; thorough: G1 + every type of depth <= 2 over the 6-leaf set with at most one non-leaf argument per binary constructor), 57 filtermaps, 38 arity functions, tests, script-declared and shadowing types, a submodule. Rust side: fn(R) and fn() -> R for every R of the probe grammar (quick: G1; thorough: G1 + 96 depth-2 types), 36 arity signatures, types unknown to the runtime. Names derived from module keys that are not script functions (generated helpers) are requested under the flat signatures only. A pair is non-trivial when the name designates a script function and the requested type has the same number of parameters (at least one type comparison decides the outcome)".into(),
             assumptions: vec![
                 "the Rust-side descriptor of a type is derived by the harness's own Desc trait, the script-side descriptor by the generator; neither reads roto's TypeRegistry".into(),
                 "Rust types that implement roto::Value but are not nameable outside the crate (StringBytes, StringChars, StringLines, DynVal, VTable, ErasedList) cannot be requested through the public API and are not enumerated".into(),
-                "an unsuffixed integer literal in `accept 5` has no documented type: only 'no panic' is demanded for that filtermap".into(),
+                "payload types the documentation leaves open (`accept 5`, `accept 1.5`, `accept Option.None`, `accept []`) are skipped for the Ok/Err oracle; they must not panic and must be retrievable under one Rust type at most".into(),
+                "r_S is omitted for S = List of an enum with a () payload: constructing such a list panics the compiler (known defect N5, property C06)".into(),
+                "a `test` item is a function `fn() -> Verdict[(), ()]` named `test#<name>` (this is how the test runner retrieves it)".into(),
+                "the probe grammar is bounded by rustc time (about 25 ms per get_function instantiation); deeper types are only on the script side".into(),
             ],
             bounds: json!({
                 "script_grammar_types": g.len(),
@@ -400,6 +404,9 @@ impl Check for C04 {
                 "static_targets": p.targets.len(),
                 "script_functions": p.targets.iter().filter(|t| t.expect != Expect::Nothing).count(),
                 "arity_signatures": genr::arity_sigs().len(),
+                "r_functions_omitted_known_compiler_panic_N5": g.iter().filter(|t| t.hits_n5()).count(),
+                "probes_per_unit": PROBES_PER_UNIT,
+                "depth2_probes_called": false,
                 "package_bytes": p.root.len() + p.sub.len(),
             }),
             states_are: "distinct (target, requested Rust function type) pairs".into(),
